@@ -43,7 +43,8 @@ def base_case(draw, rows, dtype="complex", short_nfft=False):
     else:
         lo = max(N, est.min_nfft(row, N, p))
         nfft = draw(gen.nfft_at_least(lo, hi_mult=2))
-    return {"row": row, "x": x, "params": p, "nfft": nfft}
+    # the relations hold with and without frequency scaling (both estimates carry the same factor 2 pi NFFT/sampling)
+    return {"row": row, "x": x, "params": p, "nfft": nfft, "sbf": draw(st.sampled_from([False, False, True]))}
 
 
 @st.composite
@@ -67,7 +68,7 @@ def c04_shift(ctx, case):
     n = np.arange(len(x))
     sig = {"row": row, "parity": nfft % 2, "clause": "shift"}
     ctx.sig_on_exception = sig
-    oa = est.build(row, x, p, NFFT=nfft)
+    oa = est.build(row, x, p, NFFT=nfft, scale_by_freq=case.get("sbf", False))
     a = est.psd_of(oa)
     why = est.degenerate(row, oa)
     if why:
@@ -75,7 +76,7 @@ def c04_shift(ctx, case):
         return
     # phase reduced modulo NFFT so that the modulation is exact for |m n| large
     y = x * np.exp(2j * np.pi * ((m * n) % nfft) / float(nfft))
-    b = est.psd_of(est.build(row, y, p, NFFT=nfft))
+    b = est.psd_of(est.build(row, y, p, NFFT=nfft, scale_by_freq=case.get("sbf", False)))
     ctx.cls(row, "odd" if nfft % 2 else "even", "m<0" if m < 0 else "m>0", "NFFT<N" if nfft < len(x) else "NFFT>=N")
     ctx.nontrivial(m % nfft != 0 and two_distinct(x))
     ctx.check(len(a) == nfft and len(b) == nfft, "%s: two-sided estimate has %d / %d values for NFFT=%d" % (row, len(a), len(b), nfft), sig=sig)
@@ -89,13 +90,13 @@ def c04_conj(ctx, case):
     x = gen.realise(case["x"]).astype(complex)
     sig = {"row": row, "parity": nfft % 2, "clause": "conj"}
     ctx.sig_on_exception = sig
-    oa = est.build(row, x, p, NFFT=nfft)
+    oa = est.build(row, x, p, NFFT=nfft, scale_by_freq=case.get("sbf", False))
     a = np.real(est.psd_of(oa))
     why = est.degenerate(row, oa)
     if why:
         ctx.exclude(why)
         return
-    b = est.psd_of(est.build(row, np.conj(x), p, NFFT=nfft))
+    b = est.psd_of(est.build(row, np.conj(x), p, NFFT=nfft, scale_by_freq=case.get("sbf", False)))
     ctx.cls(row, "odd" if nfft % 2 else "even")
     ctx.nontrivial(two_distinct(x) and float(np.max(np.abs(x.imag))) > 0)
     ctx.check(len(a) == nfft and len(b) == nfft, "%s: two-sided estimate has %d / %d values for NFFT=%d" % (row, len(a), len(b), nfft), sig=sig)
@@ -109,13 +110,13 @@ def c04_real(ctx, case):
     x = gen.realise(case["x"]).astype(float)
     sig = {"row": row, "parity": nfft % 2, "clause": "real"}
     ctx.sig_on_exception = sig
-    oa = est.build(row, x, p, NFFT=nfft)
+    oa = est.build(row, x, p, NFFT=nfft, scale_by_freq=case.get("sbf", False))
     one = est.psd_of(oa)
     why = est.degenerate(row, oa)
     if why:
         ctx.exclude(why)
         return
-    two = est.psd_of(est.build(row, x.astype(complex), p, NFFT=nfft))
+    two = est.psd_of(est.build(row, x.astype(complex), p, NFFT=nfft, scale_by_freq=case.get("sbf", False)))
     L = nfft // 2 + 1 if nfft % 2 == 0 else (nfft + 1) // 2
     ctx.cls(row, "odd" if nfft % 2 else "even")
     ctx.nontrivial(two_distinct(x))
@@ -139,8 +140,8 @@ def c04_reverse(ctx, case):
     x = x.astype(complex) if np.iscomplexobj(x) else x.astype(float)
     sig = {"row": row, "parity": nfft % 2, "clause": "reverse"}
     ctx.sig_on_exception = sig
-    a = est.psd_of(est.build(row, x, p, NFFT=nfft))
-    b = est.psd_of(est.build(row, np.conj(x[::-1]).copy(), p, NFFT=nfft))
+    a = est.psd_of(est.build(row, x, p, NFFT=nfft, scale_by_freq=case.get("sbf", False)))
+    b = est.psd_of(est.build(row, np.conj(x[::-1]).copy(), p, NFFT=nfft, scale_by_freq=case.get("sbf", False)))
     ctx.cls(row, "complex" if np.iscomplexobj(x) else "real", "odd" if nfft % 2 else "even")
     ctx.nontrivial(two_distinct(x) and not np.allclose(x, np.conj(x[::-1])))
     est.compare_psd(ctx, row, b, np.real(a), "%s: estimate changes under conjugated time reversal" % row, sig=sig)
